@@ -47,13 +47,15 @@ def split_targs(s):
 
 
 class FuncInfo:
-    def __init__(self, cname, ret='?', base=None, static=False, self_const=True, params=None, ref=False):
+    def __init__(self, cname, ret='?', base=None, static=False, self_const=True, params=None, ref=False, as_base=False, lead_base=()):
         self.cname = cname
         self.ret = ret          # internal type of the value (for Ref returns: the referred type)
         self.base = base        # for It returns: base expr template; '%self' is replaced by the object expr
         self.static = static
         self.params = params
         self.ref = ref          # returns a reference (C: pointer; calls are wrapped in (* ))
+        self.lead_base = tuple(lead_base)   # argument positions whose iterator base array is passed in front of them
+        self.as_base = as_base  # C function returns the array pointer; the call is rendered as index 0 over that base
 
 
 class Ctx:
@@ -143,6 +145,8 @@ class Ctx:
     def strip_ref(t):
         while tkind(t) in ('Ref',):
             t = tparam(t)
+        if t.startswith('vec_'):
+            return 'Vec<' + t[4:] + '>'
         return t
 
     def typeof(self, e):
@@ -197,7 +201,7 @@ class Ctx:
         if k == 'index':
             t = self.typeof(e[1])
             if tkind(t) in ('Vec', 'It', 'Ptr', 'Arr'):
-                return tparam(t)
+                return self.strip_ref(tparam(t))
             return '?'
         if k == 'un':
             t = self.typeof(e[2])
@@ -333,7 +337,7 @@ class Ctx:
                 if m in ('begin', 'end', 'cbegin', 'cend', 'insert'):
                     return 'It<' + el + '>'
                 if m in ('front', 'back'):
-                    return el
+                    return self.strip_ref(el)
                 if m == 'data':
                     return 'Ptr<' + el + '>'
                 return 'void'
@@ -374,8 +378,10 @@ class Ctx:
                 if fi is not None and fi.base:
                     b = fi.base
                     for i, x in enumerate(a):
+                        if '%b' + str(i) in b:
+                            b = b.replace('%b' + str(i), self.base_of(x) or '?')
                         if '%' + str(i) in b:
-                            b = b.replace('%b' + str(i), self.base_of(x) or '?').replace('%' + str(i), self.em(x))
+                            b = b.replace('%' + str(i), self.em(x))
                     return b.replace('%self', self.selfname)
             if f[0] == 'member':
                 ot = self.typeof(f[1])
@@ -626,6 +632,17 @@ class Ctx:
             return '%s %s (%s){%s}' % (self.em(l), op, self.ctype(lt), ', '.join(self.em(x) for x in r[2]))
         return '%s %s %s' % (self.em(l), op, self.em(r))
 
+    def em_arg(self, x, ptype):
+        """argument for a parameter of declared internal type ptype (None: unknown)"""
+        if ptype is None:
+            return self.em(x)
+        if tkind(ptype) == 'Ref':
+            return self.em_addr(x)
+        xt = self.strip_ref(self.typeof(x))
+        if xt in self.conv and (ptype in SCALARS or ptype in ('K', 'V', 'T')):
+            return self.scalarize(x)
+        return self.em(x)
+
     def em_cast(self, t, x):
         xt = self.strip_ref(self.typeof(x))
         floating = getattr(self, 'floating', ())
@@ -729,8 +746,18 @@ class Ctx:
             if n in self.methods:
                 fi = self.methods[n]
                 self.fire('method_call')
+                if targs and getattr(fi, 'targs_as_args', False):
+                    a = [('lit', x.strip()) if x.strip() in ('true', 'false') else ('id', x.strip(), None) for x in split_targs(targs)] + list(a)
+                    a = [('lit', '1') if (x[0] == 'lit' and x[1] == 'true') else ('lit', '0') if (x[0] == 'lit' and x[1] == 'false') else x for x in a]
+                if fi.as_base:
+                    return '((size_t)0)'
                 self.count_call(fi.cname)
-                s = '%s(%s)' % (fi.cname, ', '.join(([] if fi.static else [self.selfname]) + [self.em(x) for x in a]))
+                args = []
+                for i_, x in enumerate(a):
+                    if i_ in fi.lead_base:
+                        args.append(self.need_base(x))
+                    args.append(self.em_arg(x, fi.params[i_] if fi.params and i_ < len(fi.params) else None))
+                s = '%s(%s)' % (fi.cname, ', '.join(([] if fi.static else [self.selfname]) + args))
                 return '(*%s)' % s if fi.ref else s
             if n in self.funcs:
                 fi = self.funcs[n]
